@@ -34,6 +34,7 @@ CONSTANTS
   UpdNfcs,     \* set of BOOLEAN: do updates / releases repeat the consumer identification of the create
   AddrKinds,   \* address members of the consumer identification in a create: subset of {"none","v4","v6","fqdn","all"}
   SinkAnswers, \* statuses the consumer's notification endpoint may answer a re-authorisation notification with
+  BadCreates,  \* kinds of malformed creates (rejected, without effect): subset of {"nonfci", "pdu_noslice", "pdu_noinfo", "badplmn"}
   Faults,      \* faults an update may be served under: subset of {"none", "abmf"} ("abmf": the account server is unreachable)
   Events,      \* TRUE: the model's subscribers also send one-time events (event based charging next to their sessions)
   EvTypes,     \* values of oneTimeEventType a create may carry ("" = absent); legal with and without oneTimeEvent
@@ -164,6 +165,13 @@ DoEvent ==
                                    sig |-> StepSig("event:" \o c \o ":" \o ett, st, r.st, u, <<>>, r.resp, <<>>)])
           /\ UNCHANGED <<nid, labels>>
 
+\* a create that is rejected for its content (it names its own notification URI): nothing changes
+DoBadCreate ==
+  \E u \in Subs, k \in BadCreates :
+     /\ hist' = Append(hist, [a |-> "badcreate", u |-> u, s |-> "bad", kind |-> k,
+                              sig |-> ToString(<<"badcreate", k, u \in Dom(st.ue), NSess(st, u)>>)])
+     /\ UNCHANGED <<st, h, nid, labels, flags>>
+
 Targets == {[s |-> l, u |-> labels[l].u, ref |-> labels[l].ref] : l \in {x \in Dom(labels) : labels[x].live \/ BadRefs}}
            \cup (IF BadRefs THEN {[s |-> "none", u |-> u, ref |-> "no-such-ref"] : u \in Subs}
                                  \cup {[s |-> l, u |-> u, ref |-> labels[l].ref] : l \in Dom(labels), u \in Subs}
@@ -265,7 +273,7 @@ DoTopUp ==
           /\ UNCHANGED <<nid, labels>>
 
 Next == /\ Steps < MaxSteps
-        /\ (DoCreate \/ DoEvent \/ DoUpdate \/ DoRelease \/ DoRecharge \/ DoTopUp \/ DoTraffic)
+        /\ (DoCreate \/ DoEvent \/ DoBadCreate \/ DoUpdate \/ DoRelease \/ DoRecharge \/ DoTopUp \/ DoTraffic)
 
 Spec == Init /\ [][Next]_vars
 
